@@ -14,9 +14,32 @@ import (
 
 func init() { register("C33", runC33) }
 
-type c33err struct{ id int }
+type c33err struct {
+	id    int
+	wraps error // some job errors wrap context.Canceled / DeadlineExceeded (a job that gave up on its own context)
+}
 
 func (e c33err) Error() string { return fmt.Sprintf("job error %d", e.id) }
+func (e c33err) Unwrap() error { return e.wraps }
+
+func (c *Ctx) c33jobErr(id int) c33err {
+	switch c.Intn(4) {
+	case 0:
+		return c33err{id: id, wraps: context.Canceled}
+	case 1:
+		return c33err{id: id, wraps: context.DeadlineExceeded}
+	}
+	return c33err{id: id}
+}
+
+func c33rejected(err error) string {
+	switch {
+	case errors.Is(err, util.ErrJobWorkerDone):
+		return "rejected:done"
+	default:
+		return "rejected:" + c33errID(err)
+	}
+}
 
 func c33errID(err error) string {
 	if err == nil {
@@ -50,28 +73,78 @@ func runC33(c *Ctx) error {
 		failed := false
 		doneCalled := false
 		nsteps := 2 + c.Intn(8)
+		// a NewJob issued while the semaphore is full: it returns after a later event
+		var blockedJob int
+		var blockedRes chan error
+		resolveBlocked := func() {
+			if blockedRes == nil {
+				return
+			}
+			select {
+			case err := <-blockedRes:
+				toks = append(toks, fmt.Sprintf("nj:%d", blockedJob))
+				if err == nil {
+					outs = append(outs, "accepted")
+					running = append(running, blockedJob)
+				} else {
+					outs = append(outs, c33rejected(err))
+				}
+				blockedRes = nil
+			case <-time.After(20 * time.Millisecond):
+			}
+		}
 		for st := 0; st < nsteps; st++ {
 			k := c.Intn(10)
 			switch {
-			case k < 5 && (len(running) < semSize || failed || doneCalled):
+			case k < 5 && blockedRes == nil && len(running) >= semSize && !failed && !doneCalled && c.Chance(1, 2):
 				j := nextJob
 				nextJob++
 				gate := make(chan error, 1)
 				ret := make(chan struct{})
 				gates[j], returned[j] = gate, ret
-				err := wk.NewJob(func(context.Context, uint64) error {
-					n, _ := ran.LoadOrStore(j, new(int32))
-					atomic.AddInt32(n.(*int32), 1)
-					e := <-gate
-					close(ret)
-					return e
-				})
+				blockedJob, blockedRes = j, make(chan error, 1)
+				go func(res chan error) {
+					res <- wk.NewJob(func(context.Context, uint64) error {
+						n, _ := ran.LoadOrStore(j, new(int32))
+						atomic.AddInt32(n.(*int32), 1)
+						e := <-gate
+						close(ret)
+						return e
+					})
+				}(blockedRes)
+				time.Sleep(time.Millisecond)
+				c.Count("scripted", "blocked-newjob")
+			case k < 5 && blockedRes == nil && (len(running) < semSize || failed || doneCalled):
+				j := nextJob
+				nextJob++
+				gate := make(chan error, 1)
+				ret := make(chan struct{})
+				gates[j], returned[j] = gate, ret
+				// the script expects this call not to block; if it does (the real worker
+				// disagrees with the model) it is recorded as "blocked" and left pending
+				resc := make(chan error, 1)
+				go func() {
+					resc <- wk.NewJob(func(context.Context, uint64) error {
+						n, _ := ran.LoadOrStore(j, new(int32))
+						atomic.AddInt32(n.(*int32), 1)
+						e := <-gate
+						close(ret)
+						return e
+					})
+				}()
 				toks = append(toks, fmt.Sprintf("nj:%d", j))
-				if err == nil {
-					outs = append(outs, "accepted")
-					running = append(running, j)
-				} else {
-					outs = append(outs, "rejected")
+				select {
+				case err := <-resc:
+					if err == nil {
+						outs = append(outs, "accepted")
+						running = append(running, j)
+					} else {
+						outs = append(outs, c33rejected(err))
+					}
+				case <-time.After(100 * time.Millisecond):
+					outs = append(outs, "blocked")
+					blockedJob, blockedRes = j, resc
+					st = nsteps // stop the script here
 				}
 			case k < 8 && len(running) > 0:
 				i := c.Intn(len(running))
@@ -80,7 +153,7 @@ func runC33(c *Ctx) error {
 				var e error
 				et := "-"
 				if c.Chance(1, 3) {
-					e = c33err{j}
+					e = c.c33jobErr(j)
 					et = fmt.Sprint(j)
 					failed = true
 				}
@@ -89,12 +162,18 @@ func runC33(c *Ctx) error {
 				time.Sleep(2 * time.Millisecond) // let the cancel/release after the callback's return happen
 				toks = append(toks, fmt.Sprintf("fin:%d:%s", j, et))
 				outs = append(outs, "ok")
+				resolveBlocked()
 			case k == 8:
 				wk.Done()
 				doneCalled = true
 				toks = append(toks, "done")
 				outs = append(outs, "ok")
+				resolveBlocked()
 			}
+		}
+		if blockedRes != nil { // still blocked: nothing released the semaphore or cancelled the worker
+			toks = append(toks, fmt.Sprintf("nj:%d", blockedJob))
+			outs = append(outs, "blocked")
 		}
 		// final Wait (it cancels the worker when it returns)
 		wch := make(chan error, 1)
@@ -112,6 +191,11 @@ func runC33(c *Ctx) error {
 			gates[j] <- nil
 		}
 		wk.Close()
+		if blockedRes != nil {
+			if err := <-blockedRes; err == nil {
+				gates[blockedJob] <- nil
+			}
+		}
 		// oracle
 		ran.Range(func(k, v interface{}) bool {
 			if atomic.LoadInt32(v.(*int32)) != 1 {
@@ -139,9 +223,12 @@ func runC33(c *Ctx) error {
 		semSize := int64(1 + c.Intn(8))
 		njobs := 1 + c.Intn(40)
 		failAt := map[int]bool{}
+		failErr := map[int]error{}
 		if c.Chance(1, 2) {
 			for k := 0; k < 1+c.Intn(3); k++ {
-				failAt[c.Intn(njobs)] = true
+				j := c.Intn(njobs)
+				failAt[j] = true
+				failErr[j] = c.c33jobErr(j)
 			}
 		}
 		wk, err := util.NewBaseJobWorker(context.Background(), semSize)
@@ -166,7 +253,7 @@ func runC33(c *Ctx) error {
 				time.Sleep(time.Duration(j%3) * 50 * time.Microsecond)
 				atomic.AddInt32(&cur, -1)
 				if failAt[j] {
-					return c33err{j}
+					return failErr[j]
 				}
 				atomic.AddInt32(&finishedOK[j], 1)
 				return nil
@@ -207,5 +294,81 @@ func runC33(c *Ctx) error {
 			}
 		}
 	}
+	// 3. RunJobWorker / BatchWork with more jobs than slots: the error returned is a job's error
+	nrw := 200
+	if c.Thorough() {
+		nrw = 6000
+	}
+	for ri := 0; ri < nrw; ri++ {
+		semSize := int64(1 + c.Intn(4))
+		size := int64(2 + c.Intn(30))
+		failAt := map[uint64]error{}
+		for k := 0; k < 1+c.Intn(2); k++ {
+			j := uint64(c.Intn(int(size)))
+			failAt[j] = c.c33jobErr(int(j))
+		}
+		batch := c.Bool()
+		var visits sync.Map
+		job := func(_ context.Context, i, _ uint64) error {
+			n, _ := visits.LoadOrStore(i, new(int32))
+			atomic.AddInt32(n.(*int32), 1)
+			time.Sleep(time.Duration(i%3) * 30 * time.Microsecond)
+			if e, ok := failAt[i]; ok {
+				return e
+			}
+			return nil
+		}
+		var err error
+		what := "RunJobWorker"
+		if batch {
+			what = "BatchWork"
+			err = util.BatchWork(context.Background(), size, semSize, func(context.Context, uint64) error { return nil }, job)
+		} else {
+			err = util.RunJobWorker(context.Background(), semSize, size, job)
+		}
+		c.Eval(1)
+		c.Count("runworker", what)
+		in := map[string]interface{}{"what": what, "semSize": semSize, "size": size, "failing": len(failAt)}
+		if id := c33errID(err); !strings.HasPrefix(id, "err") {
+			c.Violation("C33:returned-error-not-the-job-error", fmt.Sprintf("%s(size %d, %d slots) with failing jobs returned %q (%s), not a job's error", what, size, semSize, fmt.Sprint(err), id), in)
+		}
+		visits.Range(func(k, v interface{}) bool {
+			if atomic.LoadInt32(v.(*int32)) != 1 {
+				c.Violation("C33:job-ran-more-than-once", fmt.Sprintf("%s visited index %v %d times", what, k, *v.(*int32)), in)
+			}
+			return true
+		})
+	}
+	// 4. the last running job fails while Wait is already waiting: Wait must not return nil
+	nst := 40000
+	if c.Thorough() {
+		nst = 600000
+	}
+	var stop int32
+	var wg sync.WaitGroup
+	var iters int64
+	for g := 0; g < 32; g++ {
+		wg.Add(1)
+		go func() {
+			defer wg.Done()
+			for atomic.LoadInt32(&stop) == 0 && atomic.AddInt64(&iters, 1) <= int64(nst) {
+				wk, err := util.NewBaseJobWorker(context.Background(), 1)
+				if err != nil {
+					return
+				}
+				_ = wk.NewJob(func(context.Context, uint64) error { return c33err{id: 1} })
+				wk.Done()
+				if werr := wk.Wait(); werr == nil {
+					if atomic.CompareAndSwapInt32(&stop, 0, 1) {
+						c.Violation("C33:wait-nil-with-unfinished-or-failed-jobs", "one-slot worker, the only accepted job failed, Wait returned nil (the failure was recorded after the slot was released)",
+							map[string]interface{}{"semSize": 1, "jobs": 1, "failing": 1, "stress": true})
+					}
+				}
+				wk.Close()
+			}
+		}()
+	}
+	wg.Wait()
+	c.Eval(int(atomic.LoadInt64(&iters)))
 	return nil
 }
